@@ -72,8 +72,11 @@ fn run_child_on(exe: &Path, file: &Path) -> Option<i32> {
 pub fn triage_crash(prop: &str, tier: Tier, seed: u64, exe: &Path) -> i32 {
     let dir = verif_dir().join("work").join(prop);
     let mut culprit: Option<Value> = None;
-    for shard in 0..SHARDS {
-        let p = dir.join(format!("current-{shard}.json"));
+    let mut recorded: Vec<std::path::PathBuf> = std::fs::read_dir(&dir)
+        .map(|rd| rd.filter_map(|e| e.ok().map(|e| e.path())).filter(|p| p.file_name().and_then(|n| n.to_str()).is_some_and(|n| n.starts_with("current-"))).collect())
+        .unwrap_or_default();
+    recorded.sort();
+    for (shard, p) in recorded.into_iter().enumerate() {
         let Ok(bytes) = std::fs::read(&p) else { continue };
         if bytes.is_empty() {
             continue;
